@@ -19,7 +19,7 @@ def shard_random(col, shard, ngrammars, ninputs):
     rng = col.rng
     cases = []
     for gi in range(ngrammars):
-        cfg = G.GenCfg(ws_patterns=(gi % 7 == 0), assoc=(0.05 if gi % 3 == 1 else 0.0), includes=(0.3 if gi % 3 == 2 else 0.0))
+        cfg = G.GenCfg(ws_patterns=(gi % 7 == 0), assoc=(0.05 if gi % 3 == 1 else 0.0), includes=(0.3 if gi % 3 == 2 else 0.0), based=(0.5 if gi % 6 == 5 else 0.0))
         g = G.gen_grammar(rng, cfg, depth=rng.choice([2, 3, 3, 4]))
         starts = [None]
         if len(g['rules']) > 1 and rng.random() < 0.3:
